@@ -1,10 +1,12 @@
 #!/bin/sh
-# evaluates every seed under /tmp/seeds that has not been evaluated yet (sequential: /repo is shared)
+# usage: seed_batch.sh [seeds-root [name-offset]]
+# evaluates every seed under the root that has not been evaluated yet (sequential: /repo is shared)
 cd /verif
-for d in /tmp/seeds/C*/[12]; do
+SEEDS=${1:-/tmp/seeds}; OFF=${2:-0}
+for d in $SEEDS/C*/[12]; do
   [ -f "$d/meta.json" ] || continue
   [ -f "$d/patch.diff" ] || continue
-  p=$(basename $(dirname $d)); k=$(basename $d); name="$p-$k"
+  p=$(basename $(dirname $d)); k=$(( $(basename $d) + OFF )); name="$p-$k"
   [ -f "seeded/$name/meta.json" ] && continue
   echo "=== $name $(date +%H:%M:%S)"
   python3 tools/seed_eval.py $d $name 2>&1 | python3 -c "
